@@ -229,7 +229,8 @@ class InRamPolicySupporter(policy_supporter.PolicySupporter):
     converter = converters.TrialToArrayConverter.from_study_config(
         config_without_safe,
         flip_sign_for_minimization_metrics=True,
-        dtype=np.float32,
+        # Metric values are float64: a narrower dtype merges distinct values.
+        dtype=np.float64,
     )
 
     if self.study_config.is_single_objective:
